@@ -393,3 +393,79 @@ func sameObserved(a, b *proto.Record) bool {
 	}
 	return true
 }
+
+// renderTrace turns the minimised run into readable lines: who calls what, where each
+// task is preempted (file:line of the yield site) and which fault events fire.
+func renderTrace(b builds, r *proto.Record) []string {
+	site := map[int]string{}
+	for _, s := range b.rep.Sites {
+		site[s.ID] = s.File + " (" + s.Func + ")"
+	}
+	opName := map[int32]string{}
+	var out []string
+	if len(r.Prefix) > 0 {
+		out = append(out, fmt.Sprintf("history: %d earlier simulated run(s) of the same process are executed first (seeded policies)", len(r.Prefix)))
+	}
+	for t, tr := range r.Run.Tasks {
+		for _, op := range tr.Ops {
+			arg := ""
+			switch {
+			case op.NilList:
+				arg = "nil"
+			case op.List != nil:
+				arg = fmt.Sprintf("%q", op.List)
+			}
+			d := fmt.Sprintf("%s(%q %s)", op.Fn, op.Expr, arg)
+			opName[int32(op.ID)] = d
+			extra := ""
+			if op.Share >= 0 {
+				extra += fmt.Sprintf(" [argument slice shared, group %d]", op.Share)
+			}
+			if op.ReuseBuf {
+				extra += " [caller refills its previous buffer]"
+			}
+			if op.ScribbleArg {
+				extra += " [caller overwrites its slice afterwards]"
+			}
+			if op.ScribbleRes {
+				extra += " [caller overwrites the returned slice afterwards]"
+			}
+			out = append(out, fmt.Sprintf("task %d, op %d: %s expects %s%s", t, op.ID, d, op.Expect, extra))
+		}
+	}
+	if !r.Run.Scripted {
+		out = append(out, fmt.Sprintf("schedule: seeded policy %q (seed %d)", r.Run.Policy.Kind, r.Run.Policy.Seed))
+		return out
+	}
+	if len(r.Run.Events) == 0 {
+		out = append(out, "schedule: no preemption; tasks run one after the other starting with task "+strconv.Itoa(r.Run.First))
+	}
+	for _, e := range r.Run.Events {
+		where := ""
+		if e.Op >= 0 {
+			where = fmt.Sprintf(" in op %d after %d yields", e.Op, e.OpStep)
+			if e.OpStep < 0 {
+				where = fmt.Sprintf(" after finishing op %d", e.Op)
+			}
+		}
+		at := ""
+		if s, ok := site[int(e.Site)]; ok {
+			at = " at " + s
+		}
+		switch e.Kind {
+		case 1:
+			out = append(out, fmt.Sprintf("task %d%s%s: preempted -> task %d", e.Task, where, at, e.Next))
+		case 2:
+			out = append(out, fmt.Sprintf("task %d%s: blocked on a library lock/once/channel -> task %d", e.Task, where, e.Next))
+		case 3:
+			out = append(out, fmt.Sprintf("task %d finished -> task %d", e.Task, e.Next))
+		case 4:
+			out = append(out, fmt.Sprintf("task %d%s%s: fault gc (runtime.GC x2)", e.Task, where, at))
+		case 6:
+			out = append(out, fmt.Sprintf("start with task %d", e.Task))
+		case 7:
+			out = append(out, fmt.Sprintf("task %d%s%s: fault clock_jump %s", e.Task, where, at, time.Duration(e.Arg)))
+		}
+	}
+	return out
+}
